@@ -47,9 +47,17 @@ GenInit == done = FALSE /\ rng \in { SeedOf(i, SeedBase) : i \in 1..NSeeds }
 GenNext ==
   /\ ~done /\ done' = TRUE /\ rng' = rng
   /\ LET npaths == 2 + Below(R(1), 6)
-         paths == { RandPath(10 + 5 * i) : i \in 1..npaths }
-         ninc == 1 + (IF Below(R(2), 4) = 0 THEN 1 ELSE 0)
-         inc == [i \in 1..ninc |-> RandPat(100 + 30 * i)]
+         paths0 == { RandPath(10 + 5 * i) : i \in 1..npaths }
+         ninc0 == 1 + (IF Below(R(2), 4) = 0 THEN 1 ELSE 0)
+         \* one case in six: two patterns with sibling literal bases (one base name may be a string
+         \* prefix of the other: a / ab), each followed by one glob component
+         sib == Below(R(6), 6) = 0
+         sibpat(k) == [comps |-> <<LitComp(PickSeq(<< <<"a">>, <<"a","b">>, <<"b">>, <<"s","u","b">>, <<"a",".","c">> >>, R(k))),
+                                  PickSeq(<<[k |-> "c", items |-> <<Star>>], [k |-> "c", items |-> <<Star, L("."), L("c")>>],
+                                            [k |-> "ss"]>>, R(k + 1))>>,
+                       dirpat |-> FALSE]
+         inc == IF sib THEN <<sibpat(90), sibpat(95)>> ELSE [i \in 1..ninc0 |-> RandPat(100 + 30 * i)]
+         ninc == Len(inc)
          tyc == PickSeq(<<"none", "none", "none", "f", "d", "*">>, R(3))
          ty == IF tyc = "f" /\ \E i \in 1..ninc : inc[i].dirpat THEN "none" ELSE tyc
          extra == IF Below(R(4), 3) = 0 THEN <<RandNG(200)>> ELSE <<>>
@@ -58,6 +66,8 @@ GenNext ==
          xc2 == IF ty = "f" THEN [i \in 1..Len(excl) |-> [excl[i] EXCEPT !.dirpat = FALSE]] ELSE excl
          f == [include |-> inc, type |-> ty, extra |-> ex2, exclude |-> xc2]
          bases == { BaseOf(inc[i]) : i \in 1..ninc }
+         \* make sure there is something to find below every literal base
+         paths == paths0 \cup { BaseOf(inc[i]) \o <<PickSeq(Names, R(400 + i))>> : i \in 1..ninc }
          dirs == UNION { PrefixesOf(p) : p \in paths } \cup bases \cup UNION { PrefixesOf(b) : b \in bases }
          leaves == paths \ dirs
          leafdir == [p \in leaves |-> Below(Nth(rng, 300 + Len(p) + Len(p[1])), 4) = 0]
